@@ -11,29 +11,26 @@ open CelerVerif.Generated.Csg
 
 theorem evalRefLoop_true (vals : Nat → Bool) (rest : List Nat) (st : List Bool) :
     evalRefLoop vals (ltrue :: rest) st = evalRefLoop vals rest (true :: st) := by
-  rw [evalRefLoop]; simp [show isOperatorToken ltrue = true by decide]
+  simp [evalRefLoop, show isOperatorToken ltrue = true by decide]
 
 theorem evalRefLoop_operand (vals : Nat → Bool) {s : Nat} (hs : s < lbegin) (rest : List Nat)
     (st : List Bool) : evalRefLoop vals (s :: rest) st = evalRefLoop vals rest (vals s :: st) := by
   have : isOperatorToken s = false := by simp [isOperatorToken]; omega
-  rw [evalRefLoop]; simp [this]
+  simp [evalRefLoop, this]
 
 theorem evalRefLoop_not (vals : Nat → Bool) (rest : List Nat) (a : Bool) (st : List Bool) :
     evalRefLoop vals (lnot :: rest) (a :: st) = evalRefLoop vals rest ((!a) :: st) := by
-  rw [evalRefLoop]
-  simp [show isOperatorToken lnot = true by decide, show lnot ≠ ltrue by decide,
+  simp [evalRefLoop, show isOperatorToken lnot = true by decide, show lnot ≠ ltrue by decide,
     show lnot ≠ lor by decide, show lnot ≠ land by decide]
 
 theorem evalRefLoop_and (vals : Nat → Bool) (rest : List Nat) (a b : Bool) (st : List Bool) :
     evalRefLoop vals (land :: rest) (a :: b :: st) = evalRefLoop vals rest ((b && a) :: st) := by
-  rw [evalRefLoop]
-  simp [show isOperatorToken land = true by decide, show land ≠ ltrue by decide,
+  simp [evalRefLoop, show isOperatorToken land = true by decide, show land ≠ ltrue by decide,
     show land ≠ lor by decide]
 
 theorem evalRefLoop_or (vals : Nat → Bool) (rest : List Nat) (a b : Bool) (st : List Bool) :
     evalRefLoop vals (lor :: rest) (a :: b :: st) = evalRefLoop vals rest ((b || a) :: st) := by
-  rw [evalRefLoop]
-  simp [show isOperatorToken lor = true by decide, show lor ≠ ltrue by decide]
+  simp [evalRefLoop, show isOperatorToken lor = true by decide, show lor ≠ ltrue by decide]
 
 /-- `l` pushes the value `b`: running it in front of any continuation -/
 def Pushes (vals : Nat → Bool) (l : List Nat) (b : Bool) : Prop :=
@@ -50,8 +47,7 @@ theorem foldl_postfixStep_none (tok : Nat) (g : Nat → Option (List Nat)) (xs :
   | nil => rfl
   | cons c cs ih => simp only [List.foldl_cons]; rw [show postfixStep tok none (g c) = none from rfl, ih]
 
-theorem foldl_pushes {vals v : Nat → Bool} (op : Op) (g : Nat → Option (List Nat))
-    (hg : ∀ c lc, g c = some lc → Pushes vals lc (v c)) :
+theorem foldl_pushes {vals v : Nat → Bool} (op : Op) (g : Nat → Option (List Nat)) :
     ∀ (xs : List Nat), (∀ c ∈ xs, ∀ lc, g c = some lc → Pushes vals lc (v c)) →
     ∀ (acc : List Nat) (b : Bool) (l : List Nat),
     Pushes vals acc b →
@@ -136,8 +132,102 @@ theorem buildPostfix_pushes {t : Tree} {σ v : Nat → Bool} (s : Struct t) (hm 
           have hih : ∀ c ∈ xs, ∀ lc, buildPostfix t none f c = some lc → Pushes σ lc (v c) :=
             fun c hc lc hlc => ih c lc (hcl c (by simp [Node.children, hc])) hlc
           have := foldl_pushes (vals := σ) (v := v) op (fun c => buildPostfix t none f c)
-            (fun c lc _ => by exact fun rest st => by trivial |> fun _ => by
-              exact (False.elim (by exact absurd rfl (by intro; exact id)))) xs hih lx (v x) l hpx h
-          sorry
+            xs hih lx (v x) l hpx h
+          rw [hv]
+          cases op <;> simpa [joinVal, evalNode] using this
+
+/-- tokens are translated by `g`, values by `vals'`: same run -/
+theorem evalRefLoop_map (g : Nat → Nat) (vals vals' : Nat → Bool) :
+    ∀ (l : List Nat) (st : List Bool),
+    (∀ tok ∈ l, (isOperatorToken tok = true → g tok = tok) ∧
+      (isOperatorToken tok = false → isOperatorToken (g tok) = false ∧ vals' (g tok) = vals tok)) →
+    evalRefLoop vals' (l.map g) st = evalRefLoop vals l st := by
+  intro l
+  induction l with
+  | nil => intro st _; rfl
+  | cons tok rest ih =>
+    intro st h
+    have ht := h tok (by simp)
+    have ihr := fun st' => ih st' (fun x hx => h x (List.mem_cons_of_mem _ hx))
+    cases hop : isOperatorToken tok with
+    | false =>
+      have := ht.2 hop
+      simp only [List.map_cons, evalRefLoop, this.1, hop, this.2]
+      simpa using ihr _
+    | true =>
+      have := ht.1 hop
+      simp only [List.map_cons, evalRefLoop, this, hop]
+      simp only [Bool.not_true, Bool.false_eq_true, if_false]
+      split
+      · exact ihr _
+      · split
+        · cases st with
+          | nil => rfl
+          | cons a st1 => cases st1 with
+            | nil => rfl
+            | cons b st2 => exact ihr _
+        · split
+          · cases st with
+            | nil => rfl
+            | cons a st1 => cases st1 with
+              | nil => rfl
+              | cons b st2 => exact ihr _
+          · split
+            · cases st with
+              | nil => rfl
+              | cons a st1 => exact ihr _
+            · rfl
+
+theorem indexIn_spec {faces : List Nat} {s : Nat} (hs : s ∈ faces) :
+    indexIn faces s < faces.length ∧ faces.getD (indexIn faces s) 0 = s := by
+  unfold indexIn
+  have hex : ∃ x ∈ faces, (x == s) = true := ⟨s, hs, by simp⟩
+  have hlt := List.findIdx_lt_length_of_exists hex
+  refine ⟨hlt, ?_⟩
+  have := List.findIdx_getElem (w := hlt)
+  simp only [List.getD_eq_getElem?_getD, List.getElem?_eq_getElem hlt, Option.getD_some]
+  simpa using this
+
+/-- ★ the logic returned by `PostfixLogicBuilder` (face indices), evaluated with senses read
+    through the face vector, yields the value of the node -/
+theorem postfixOf_evalRef {t : Tree} {σ v : Nat → Bool} (s : Struct t) (hm : Models t σ v)
+    (hsurf : ∀ i k, i < t.size → t.get i = .surface k → k < lbegin) {n : Nat} (hn : n < t.size)
+    {faces lgc : List Nat} (h : postfixOf t none n = some (faces, lgc)) :
+    evalRef lgc (fun f => σ (faces.getD f 0)) = some (v n) := by
+  unfold postfixOf at h
+  cases hb : buildPostfix t none (t.size + 1) n with
+  | none => rw [hb] at h; cases h
+  | some raw =>
+    rw [hb] at h
+    simp only [Option.some.injEq, Prod.mk.injEq] at h
+    rcases h with ⟨hf, hl⟩
+    rw [hf] at hl
+    have hp := buildPostfix_pushes s hm hsurf (t.size + 1) n raw hn hb
+    have hraw : evalRefLoop σ raw [] = some [v n] := by
+      have := hp [] []
+      simpa [evalRefLoop] using this
+    have hmap : evalRefLoop (fun f => σ (faces.getD f 0)) lgc [] = evalRefLoop σ raw [] := by
+      rw [← hl]
+      apply evalRefLoop_map
+      intro tok htok
+      constructor
+      · intro hop; simp [hop]
+      · intro hop
+        have hmem : tok ∈ faces := by
+          rw [← hf, mem_sortU, List.mem_filter]; exact ⟨htok, by simp [hop]⟩
+        have hi := indexIn_spec hmem
+        simp only [hop, Bool.false_eq_true, if_false]
+        refine ⟨?_, by rw [hi.2]⟩
+        have hss : StrictSorted faces := by rw [← hf]; exact strictSorted_sortU _
+        have hle := strictSorted_index_le hss _ hi.1
+        have hget : faces[indexIn faces tok] = tok := by
+          have := hi.2
+          simpa [List.getD_eq_getElem?_getD, List.getElem?_eq_getElem hi.1] using this
+        rw [hget] at hle
+        have htl : tok < lbegin := by simpa [isOperatorToken] using hop
+        have : indexIn faces tok < lbegin := Nat.lt_of_le_of_lt hle htl
+        simpa [isOperatorToken] using this
+    unfold evalRef
+    rw [hmap, hraw]
 
 end CelerVerif.Csg
